@@ -721,7 +721,8 @@ func (s *sys) dump(res string, best int, bl string) string {
 		fmt.Fprintf(&b, "%d:%d", i+1, p.LastBlock())
 	}
 	b.WriteString("] ntf [")
-	for i, n := range s.bm.TakeNtfns() {
+	taken := s.bm.TakeNtfns()
+	for i, n := range taken {
 		if i > 0 {
 			b.WriteByte(' ')
 		}
@@ -734,6 +735,18 @@ func (s *sys) dump(res string, best int, bl string) string {
 			fmt.Fprintf(&b, "D:%d:%d:%d", s.idOf(&hd), x.Height(), s.idOf(&tip))
 		default:
 			b.WriteString("X:0:0:0")
+		}
+	}
+	// what the (slow) sink saw in the block header store right before it took each notification
+	b.WriteString("] pre [")
+	for i, n := range taken {
+		if i > 0 {
+			b.WriteByte(' ')
+		}
+		if n.PreValid {
+			fmt.Fprintf(&b, "1:%d:%d", n.PreTipHeight, s.idOfHash(n.PreTipHash))
+		} else {
+			b.WriteString("0:0:0")
 		}
 	}
 	b.WriteString("]")
@@ -1119,6 +1132,119 @@ func runCase(t *tr.W, rng *rand.Rand, nev int, script string) {
 				p = sp
 			}
 			headers(p, pathTo(fp, tgt), "warp")
+		case x < 31: // a reorganisation and the new branch's filter headers with a SLOW notification sink,
+			// then a subscriber registers (backlog request from this goroutine)
+			sp := s.peerID(s.bm.Digest().SyncPeer)
+			if sp == 0 || len(s.stored) < 4 {
+				continue
+			}
+			// first commit the filter headers of what is stored, so that the reorganisation
+			// disconnects committed blocks
+			for i := 0; i < 4 && s.ftip < len(s.stored)-1; i++ {
+				cfwrite()
+			}
+			if s.ftip < 2 {
+				continue
+			}
+			tipH := int32(len(s.stored) - 1)
+			floor := int32(0)
+			for _, c := range w.params.Checkpoints {
+				if c.Height <= tipH {
+					floor = c.Height
+				}
+			}
+			var cands [][]*node
+			for _, tgt := range w.nodes {
+				if s.onStored(tgt) {
+					continue
+				}
+				fp := tgt
+				for fp != nil && !s.onStored(fp) {
+					fp = fp.parent
+				}
+				if fp == nil || fp.height < 1 || fp.height < floor || int(fp.height) >= s.ftip || fp.height >= tipH {
+					continue
+				}
+				b := pathTo(fp, tgt)
+				ok := true
+				nw, ow := new(big.Int), new(big.Int)
+				for _, n := range b {
+					ok = ok && n.valid
+					nw.Add(nw, n.work)
+					for _, c := range w.params.Checkpoints {
+						if c.Height == n.height {
+							ok = false // keep checkpoints out of this script
+						}
+					}
+				}
+				for _, n := range s.stored[fp.height+1:] {
+					ow.Add(ow, n.work)
+				}
+				if ok && nw.Cmp(ow) > 0 {
+					cands = append(cands, b)
+				}
+			}
+			if len(cands) == 0 {
+				t.Hit("ev.lagreorg.none")
+				continue
+			}
+			t.Hit("ev.lagreorg")
+			b := cands[rng.Intn(len(cands))]
+			fpH := int(b[0].height) - 1
+			hs := make([]*wire.BlockHeader, len(b))
+			for i, n := range b {
+				hs[i] = n.hdr
+			}
+			s.bm.SetSinkDelay(3 * time.Millisecond)
+			r := guard(func() { s.bm.Headers(s.peers[sp-1], hs) })
+			// the new branch's filter headers, as far as the branch got stored
+			stopID, nf := 0, 0
+			if _, fth, err := s.fh.ChainTip(); err == nil && r == "ok" {
+				want := int(fth) + 1 + rng.Intn(3)
+				var blocks []*node
+				for h := int(fth) + 1; h <= want; h++ {
+					hd, err := s.bh.FetchHeaderByHeight(uint32(h))
+					if err != nil {
+						break
+					}
+					n, ok := w.byHash[hd.BlockHash()]
+					if !ok {
+						break
+					}
+					blocks = append(blocks, n)
+				}
+				if prev, _, err := s.fh.ChainTip(); err == nil && len(blocks) > 0 {
+					msg := &wire.MsgCFHeaders{FilterType: wire.GCSFilterRegular,
+						StopHash: blocks[len(blocks)-1].hash, PrevFilterHeader: *prev}
+					for _, n := range blocks {
+						fhh := filterHash(n)
+						msg.FilterHashes = append(msg.FilterHashes, &fhh)
+					}
+					r2 := guard(func() {
+						if _, _, err := s.bm.WriteCFHeaders(msg); err != nil {
+							r = "err"
+						}
+					})
+					if r2 != "ok" {
+						r = r2
+					}
+					stopID, nf = blocks[len(blocks)-1].id, len(blocks)
+				}
+			}
+			ph := 1 + rng.Intn(fpH)
+			pr, seen := s.bm.ProbeNow(uint32(ph))
+			s.bm.SetSinkDelay(0)
+			probe := fmt.Sprintf(" pres err pbest 0 pbl [] pseen %d", seen)
+			if pr.Err == nil {
+				var ss []string
+				for _, n := range pr.Ntfns {
+					hd := n.Header()
+					ss = append(ss, fmt.Sprintf("%d:%d", s.idOf(&hd), n.Height()))
+				}
+				probe = fmt.Sprintf(" pres ok pbest %d pbl [%s] pseen %d", pr.Best, strings.Join(ss, " "), seen)
+			}
+			s.lastBatch = b
+			t.Op(fmt.Sprintf("lagreorg %d %s %d %d %d", sp, ids(b), stopID, nf, ph), s.dump(r, 0, "[]")+probe)
 		case x < 40: // a branch that forks off the stored chain
 			tgt := w.nodes[rng.Intn(len(w.nodes))]
 			tgt = randDesc(rng, tgt, rng.Intn(4))
